@@ -170,6 +170,9 @@ def run_prop(prop, tier):
         wf.run_noformat_oracle(rr, model, bres, chk)
         for f in chk.failures[before:]:
             f['key'] = 'rewrite:' + f['key']
+    if prop == 'C09':
+        # record order and record types as a whole: file bytes vs modelWrite on the live description
+        wf.modelwrite_stream('C09', tier, model, bres, chk, 60, 500)
     if prop in ('C07', 'C09'):
         # objects renamed / moved to another origin after a first write, then the same DLISFile written again
         for r in wf.rewrite_runs(prop, tier, model, bres, chk, 60, 500):
